@@ -97,6 +97,28 @@ func btrim(bts []byte) []byte {
 	return bts[i:j]
 }
 
+// asciiEqualFold reports whether a and b are equal under ASCII case folding.
+// Unlike bytes.EqualFold it does not apply Unicode folding, under which, for
+// example, the Kelvin sign (U+212A) is equal to "k".
+func asciiEqualFold(a, b []byte) bool {
+	if len(a) != len(b) {
+		return false
+	}
+	for i := range a {
+		x, y := a[i], b[i]
+		if 'A' <= x && x <= 'Z' {
+			x |= toLower
+		}
+		if 'A' <= y && y <= 'Z' {
+			y |= toLower
+		}
+		if x != y {
+			return false
+		}
+	}
+	return true
+}
+
 func strHasToken(header, token string) (has bool) {
 	return btsHasToken(strToBytes(header), strToBytes(token))
 }
